@@ -28,6 +28,8 @@ def canon(n):
         out = [type(n).__name__]
         for f in n._fields:
             if not hasattr(n, f):
+                if f == "ctx":  # ast.Name(id=..) built without a context: every expression
+                    out.append(["ctx", ["Load"]])  # node of a query is read, never stored to
                 continue
             v = getattr(n, f)
             if v is None and getattr(type(n), f, ...) is None:
@@ -46,6 +48,20 @@ def plain(n):
     if isinstance(n, list):
         return [plain(x) for x in n]
     return n
+
+
+def _rereadable(a):
+    "unparse/parse gives back the same tree unless a constant is negative (-1 is read as -(1))"
+    import math
+
+    for n in ast.walk(a):
+        if isinstance(n, ast.Constant) and isinstance(n.value, (int, float, complex)) \
+                and not isinstance(n.value, bool):
+            v = n.value
+            if isinstance(v, complex) or v < 0 or (isinstance(v, float) and (
+                    math.copysign(1.0, v) < 0 or v != v)):
+                return False
+    return True
 
 
 LAYOUTS = 4
@@ -232,6 +248,11 @@ def main():
                 again["after_relocate"] = calc_ast_hash(a)
             # a pristine structural copy (fields only) carries no annotation, whoever attached it
             again["pristine_copy"] = calc_ast_hash(plain(a))
+            if b.get("post") in ("simplify", "fn_form") and _rereadable(a):
+                # the same query read back from its own text (what a cache keyed by the hash
+                # would be asked about by another client)
+                again["reread_from_own_text"] = calc_ast_hash(
+                    ast.parse(ast.unparse(plain(a)), mode="eval").body)
             rec["again"] = again
             if b.get("exec_before") and "pickled" not in b:
                 recv = datasets[b.get("dataset", 0) % len(datasets)].seen
